@@ -278,6 +278,11 @@ def hdl21_naming_encoder(obj: Any) -> Any:
     from .instance import Instance
     from .generator import Generator
     from .primitives import Primitive, PrimitiveCall
+    from .prefix import Prefixed
+
+    if isinstance(obj, Prefixed):
+        # Name by value, so that equal numbers written with different prefixes or digits get equal names
+        return obj._canonical()
 
     if isinstance(obj, (Instance,)):
         # Not supported as parameters
